@@ -11,7 +11,8 @@
    MODEL = [load_skin], [load_morph], [bound_skin_matrix].   SPEC = [spec_group], [spec_accepts].
    No proofs in this file. *)
 From Coq Require Import List Bool Arith ZArith NArith.
-From PC Require Import Base.Outcome Base.Mat.
+From PC Require Import Base.Outcome Base.Py Base.Mat.
+Close Scope Z_scope.
 Import ListNotations.
 
 (* input semantics that the loaders distinguish *)
@@ -197,6 +198,29 @@ Definition spec_group (nind : nat) (vcounts : list nat) (v : list Z) (i : nat) :
    of their matrices, outermost first *)
 Definition bound_skin_matrix (path : list matZ) (bind_shape : matZ) : matZ :=
   zmmul (zmprod path) bind_shape.
+
+(* BoundSkin.getJoint(i) = skin.weight_joints[i], BoundSkin.getWeight(i) = skin.weights[i]:
+   indexing a source (negative positions count from the end, as numpy does) *)
+Definition get_joint (wjs : src) (i : Z) : option N :=
+  match norm_index (src_len wjs) i with Some k => nth_error (names_of wjs) k | None => None end.
+Definition get_weight (ws : src) (i : Z) : option (list Z) :=
+  match norm_index (src_len ws) i with
+  | Some k => nth_error (chunk (src_ncomp ws) (vals_of ws)) k
+  | None => None
+  end.
+
+(* ---------------------------------------------------------------- BoundMorph *)
+(* Morph.bind(matrix, materials) = BoundMorph(morph, matrix, materials): it keeps the path matrix
+   and the morph itself; len() and [] delegate to the morph.  (Unlike BoundSkin it does not bind
+   the base geometry or the targets, and there is no bind shape matrix.) *)
+Record bound_morph := mk_bound_morph {
+  bm_matrix : matZ;
+  bm_base : N;
+  bm_pairs : list (N * Z) }.
+Definition bind_morph (path : list matZ) (m : N * list (N * Z)) : bound_morph :=
+  mk_bound_morph (zmprod path) (fst m) (snd m).
+Definition bound_morph_get (b : bound_morph) (i : Z) : option (N * Z) :=
+  match norm_index (length (bm_pairs b)) i with Some k => nth_error (bm_pairs b) k | None => None end.
 
 (* ---------------------------------------------------------------- the parsed <morph> *)
 Record morph_desc := mk_morph_desc {
